@@ -22,7 +22,7 @@ EXPLANATION = (
 ASSUMPTIONS = ["std::atomic<thread_state>::compare_exchange_strong is atomic", "work_items_/new_tasks_/terminated_items_ deliver each pushed element to one pop (C17)",
                "on_start_thread runs on the owning worker before the pool's start-up barrier releases any work (reserve() calls exempt from R6)"]
 THOROUGH_CONFIGS = [["-UNDEBUG", "-DPIKA_DEBUG"], ["-DPIKA_HAVE_THREAD_QUEUE_WAITTIME"]]
-FLOORS = {"C01.R1": 8, "C01.R2": 6, "C01.R3": 8, "C01.R4": 24, "C01.R5": 12, "C01.R6": 10, "C01.R7": 9, "C01.R8": 2, "C01.R9": 1, "C01.R10": 6, "C01.R11": 4, "C01.R12": 20}
+FLOORS = {"C01.R1": 8, "C01.R2": 6, "C01.R3": 8, "C01.R4": 24, "C01.R5": 12, "C01.R6": 10, "C01.R7": 9, "C01.R8": 2, "C01.R9": 1, "C01.R10": 6, "C01.R11": 4, "C01.R12": 20, "C01.R13": 4}
 
 TSS = "pika::threads::detail::thread_schedule_state"
 TD = "pika::threads::detail::thread_data"
@@ -454,6 +454,53 @@ def run(rep, tier):
                     "opaque-return": "returns %s, which is not the outcome of a pop" % what}[kind])
         else:
             rep.ok("C01.R11", f, "%d pops, %d returns: success is returned at once, false only without a popped task" % (len(pops), nret), sites=len(pops) + nret)
+
+    # ---- R13: every queue the scheduler pushes to is popped by its owner whatever the stealing mode is
+    rep.rule("C01.R13", "K6 (pop coverage): every queue member that the scheduler's schedule_thread pushes to (high-priority, normal, low-priority) is popped in "
+             "get_next_thread on a path that does not depend on the stealing mode being enabled (static policies and remove_scheduler_mode(enable_stealing) "
+             "switch it off: a queue popped only under enable_stealing is never drained there and its tasks never run)")
+    SP_ = facts(rep, lib("thread_pools", "src/scheduled_thread_pool.cpp"),
+                [r"::(local_priority_queue_scheduler|local_queue_scheduler|static_queue_scheduler|static_priority_queue_scheduler)::(get_next_thread|schedule_thread)$"])
+    from engine.kinds import derives_from
+    byclass = {}
+    for f in SP_.fns:
+        if not f.pattern and f.parent == -1:
+            byclass.setdefault(f.full.rsplit("::", 1)[0], {})[f.qname.rsplit("::", 1)[-1]] = f
+    n13 = 0
+    for cls, fs_ in sorted(byclass.items()):
+        g, sc = fs_.get("get_next_thread"), fs_.get("schedule_thread")
+        if g is None:
+            continue
+        if sc is None:
+            # derived policies inherit schedule_thread: use the one of the base class of the same instantiation
+            base = [v.get("schedule_thread") for k_, v in byclass.items() if v.get("schedule_thread") is not None and k_.split("<", 1)[-1] == cls.split("<", 1)[-1]]
+            sc = base[0] if base else None
+        if sc is None:
+            continue
+        pushed = set()
+        for _, _, e in sc.all_events():
+            if e.get("k") == "call" and callee_short(e) == "schedule_thread" and e.get("recv") is not None and P(e["recv"]) != "this":
+                m = re.match(r"^this->(\w+)", P(e["recv"]))
+                if m:
+                    pushed.add(m.group(1))
+        if not pushed:
+            raise AnalysisBroken("%s::schedule_thread: no queue member is pushed to" % cls)
+        steal = [q["name"] for q in g.params if (q.get("type") or "").strip() == "bool"]
+        steal = steal[-1] if steal else "enable_stealing"
+        ffg = FactFlow(g, eh=False)
+        is_pop = lambda e: e.get("k") == "call" and callee_short(e) == "get_next_thread" and e.get("recv") is not None and P(e["recv"]) != "this"
+        for m in sorted(pushed):
+            mine = [(b, i, e) for b, i, e in g.all_events() if is_pop(e) and derives_from(g, e["recv"], lambda t, m=m: ("this->" + m) in t)]
+            free = [(b, i, e) for b, i, e in mine if (steal, True) not in (ffg.before.get((b, i)) or frozenset())]
+            n13 += 1
+            if free:
+                rep.ok("C01.R13", g, "%s (pushed to by schedule_thread) is popped independently of the stealing mode (%d of %d pop sites)" % (m, len(free), len(mine)))
+            else:
+                rep.bad("C01.R13", g, loc_of(mine[0][2]) if mine else g.loc, "pop-needs-stealing:" + m,
+                        "schedule_thread pushes to %s, but get_next_thread pops it %s: with the stealing mode off (static policies, remove_scheduler_mode(enable_stealing)) tasks queued "
+                        "there are never dequeued - their bodies are never entered" % (m, "only on paths where %s is true" % steal if mine else "nowhere"))
+    if n13 < 4:
+        raise AnalysisBroken("C01.R13 examined only %d (scheduler, queue member) pairs" % n13)
 
     # ---- R12: the containers the work queues are built on (the same rules decide C17)
     import_rules(rep, tier, "C17", ("C17.R4", "C17.R5"), "C01.R12",
